@@ -178,7 +178,7 @@ class Check(CheckBase):
             for i in range(0, len(cells), per):
                 cases.append({'kind': 'lattice', 'command': cmd, 'cells': cells[i:i + per]})
         # several options at once, each in its own random subset of sources (seeded)
-        ncombo = 120 if quick else 6000
+        ncombo = 120 if quick else 40000
         vf_opts = [oi for oi, o in enumerate(opts) if o.backend == 'vfspy']
         combos = []
         for _ in range(ncombo):
